@@ -159,6 +159,9 @@ Next ==
 
 Spec == Init /\ [][Next]_vars
 
+\* writers are interchangeable (ids are not: their order matters)
+WriterSym == Permutations(Writers)
+
 (* ------------------------------ history trees ------------------------------ *)
 \* historytree.go rebuild: BuildHistoryTree(Heads = H, IncludeBeforeId = TRUE), H # {} stored.
 \* (IncludeBeforeId = FALSE with one head h is the same with H = Prev(h); H = {} loops forever in
